@@ -230,10 +230,23 @@ impl Histories {
 
     /// Run one history; `observe_every` = observe after every operation (default) or only at the end.
     fn run_history(scratch: &Scratch, history: &[Op], observe_every: bool, second_root: bool) -> (u64, Option<(String, String)>) {
+        Self::run_history_via(scratch, history, observe_every, second_root, false)
+    }
+    /// `via_snapshot`: every observation of the long-lived session (the warm-up included) is made on a
+    /// snapshot that is dropped afterwards, as a language server does for each request
+    fn run_history_via(scratch: &Scratch, history: &[Op], observe_every: bool, second_root: bool, via_snapshot: bool) -> (u64, Option<(String, String)>) {
         let mut world = World::new(scratch);
         let mut transitions = 0u64;
+        let look = |session: &CompilerSession, dir: &std::path::Path, file: &str, run: bool| {
+            if via_snapshot {
+                let snap = session.snapshot();
+                observe(&snap, dir, file, run)
+            } else {
+                observe(session, dir, file, run)
+            }
+        };
         // warm the caches
-        let _ = observe(&world.session, &world.dir, "root.zy", true);
+        let _ = look(&world.session, &world.dir, "root.zy", true);
         for (k, op) in history.iter().enumerate() {
             transitions += 1;
             if let Err(e) = world.apply(op) {
@@ -252,9 +265,9 @@ impl Histories {
             if observe_every || k + 1 == history.len() {
                 if second_root {
                     // evicts the lru=1 check memo
-                    let _ = observe(&world.session, &world.dir, "lib.zy", false);
+                    let _ = look(&world.session, &world.dir, "lib.zy", false);
                 }
-                let got = observe(&world.session, &world.dir, "root.zy", true);
+                let got = look(&world.session, &world.dir, "root.zy", true);
                 let fresh = world.fresh();
                 let want = observe(&fresh, &world.dir, "root.zy", true);
                 if let Some(l) = got.0.iter().find(|l| l.contains("DISAGREES") || l.contains("check_resolved PANIC")) {
@@ -294,7 +307,7 @@ impl Check for Histories {
         )
     }
     fn rule(&self) -> String {
-        format!("every history of <= {} mutating operations over 4 interdependent files (root.zy, lib.zy, companion lib.zyi, other.zy) and their content variants (valid v1/v2, syntax error, type error, import added/removed, import cycle, matching/mismatching signature): set_overlay, clear_overlay, write+refresh_disk, delete+refresh_disk ({} operations); each history runs on a real long-lived CompilerSession in three schedules: observe after every step, observe only at the end, and observe with an analysis of lib.zy in between (evicts the check memo); observation = graph (files, edges, provider order), verdict, report messages and spans, reports/coverage queries, the verdict of the same program pushed through check_resolved, run result; oracle = a fresh session over the same directory and overlays gives the same observation; states = histories, transitions = operations executed on the implementation; non-trivial = histories whose final observation differs from the initial one", self.depth, self.ops.len())
+        format!("every history of <= {} mutating operations over 4 interdependent files (root.zy, lib.zy, companion lib.zyi, other.zy) and their content variants (valid v1/v2, syntax error, type error, import added/removed, import cycle, matching/mismatching signature): set_overlay, clear_overlay, write+refresh_disk, delete+refresh_disk ({} operations); each history runs on a real long-lived CompilerSession in five schedules: observe after every step, observe only at the end, observe with an analysis of lib.zy in between (evicts the check memo), and the first two with every observation (warm-up included) made on a snapshot that is dropped afterwards; observation = graph (files, edges, provider order), verdict, report messages and spans, reports/coverage queries, the verdict of the same program pushed through check_resolved, run result; oracle = a fresh session over the same directory and overlays gives the same observation; states = histories, transitions = operations executed on the implementation; non-trivial = histories whose final observation differs from the initial one", self.depth, self.ops.len())
     }
     fn timeout(&self) -> std::time::Duration {
         std::time::Duration::from_secs(300)
@@ -310,16 +323,17 @@ impl Check for Histories {
             }
             let mut h = prefix.clone();
             h.push(op);
-            for (every, second) in [(true, false), (false, false), (true, true)] {
-                let (t, problem) = Histories::run_history(scratch, &h, every, second);
+            for (every, second, via_snapshot) in [(true, false, false), (false, false, false), (true, true, false), (true, false, true), (false, false, true)] {
+                let (t, problem) = Histories::run_history_via(scratch, &h, every, second, via_snapshot);
                 r = r.count("states", 1).count("transitions", t).count("traces", 1);
                 if let Some((fp, detail)) = problem {
                     r = r.violation(
                         fp,
                         format!(
-                            "history (observe {}{}): {}\n{}",
+                            "history (observe {}{}{}): {}\n{}",
                             if every { "after every step" } else { "only at the end" },
                             if second { ", analysing lib.zy in between" } else { "" },
+                            if via_snapshot { ", every observation on a dropped snapshot" } else { "" },
                             h.iter().map(op_text).collect::<Vec<_>>().join(" ; "),
                             detail
                         ),
